@@ -54,6 +54,8 @@ HARNESSES = {
     # name: dict(pipeline, values..., mode, steps, seed, hooks)
     # (value lists are deliberately NOT ascending: labels must follow the declared order of the runs)
     "det3":      dict(pipe="det", mode="product", a=[3, 1, 2], steps=1, seed=None, hooks=True),
+    # the swept values are TEXT that denotes numbers ('1e3'-like numbers of a YAML file arrive like this)
+    "det3t":     dict(pipe="det", mode="product", a=["3", "1", "2"], steps=1, seed=None, hooks=False),
     # a model that is disabled in the configuration, switched on by the sweep
     "enflag":    dict(pipe="enflag", mode="product", a=[2, 1], en=[False, True], steps=1, seed=None, hooks=False),
     # an input file given relative to the observation's working directory
@@ -171,7 +173,7 @@ def build(h, with_dask, tmp):
                       ParameterValues(key=ka, values="_")]
             kw = dict(from_file=fn, column_range=(0, 3))
     else:
-        params.append(ParameterValues(key=ka, values=[x + s for x in h["a"]]))
+        params.append(ParameterValues(key=ka, values=[(str(int(x) + s) if isinstance(x, str) else x + s) for x in h["a"]]))
         if "b" in h:
             params.append(ParameterValues(key=kb, values=[x + s for x in h["b"]]))
         if "c" in h:
@@ -396,7 +398,7 @@ def shards(tier, seed):
         nsplit = 1 if bound == 0 else (6 if tier == "quick" else 14)
         for i in range(nsplit):
             out.append({"part": "sched", "h": hname, "k": k, "bound": bound, "i": i, "of": nsplit, "seed": seed})
-    for hname in ("det3", "state3", "seq", "custom3", "noisy3", "mseed3", "rtimes3n", "collide", "enflag", "enstruct", "wdfile", "rtimes2s"):
+    for hname in ("det3", "state3", "seq", "custom3", "noisy3", "mseed3", "rtimes3n", "collide", "enflag", "enstruct", "wdfile", "rtimes2s", "det3t"):
         out.append({"part": "free", "h": hname, "seed": seed, "tier": tier})
     out.append({"part": "calib", "seed": seed, "tier": tier})
     for mode in ("product", "custom", "sequential"):
